@@ -223,6 +223,10 @@ def main():
         # part 2 families
         ops, pairs = F.rule_opcodes()
         blocks = []
+        # one block per kind of state-changing or state-reading instruction the checker has to account for (a checker that
+        # overlooks one kind accepts a log that drops or rewires it), then the arithmetic and memory families
+        blocks += ["DUP2 DUP2 MSTORE8", "DUP2 DUP2 MSTORE8 DUP1 MLOAD", "SWAP1 MSTORE8", "DUP2 DUP2 MSTORE", "DUP2 DUP2 SSTORE", "SWAP1 SSTORE",
+                   "PUSH 20 DUP2 KECCAK256", "DUP2 DUP2 MSTORE8 DUP2 DUP2 MSTORE", "DUP1 SLOAD DUP2 MLOAD"]
         blocks += F.consuming_singles(["ADD", "SUB", "AND", "SHL", "LT", "ISZERO"])[:: 3]
         blocks += F.f_mem((2,), deltas=[0, 32])[:: 9]
         blocks += ["PUSH 1 DUP2 ADD PUSH 0 ADD", "DUP2 DUP2 SUB SWAP1 POP", "PUSH 3 PUSH 4 ADD DUP2 MUL",
@@ -230,7 +234,7 @@ def main():
                    "DUP2 DUP2 MSTORE DUP1 MLOAD", "DUP3 DUP3 SSTORE DUP2 SLOAD DUP2 ADD", "PUSH 20 DUP2 KECCAK256 DUP2 MLOAD"]
         blocks = list(dict.fromkeys(blocks))
         if tier == "quick":
-            blocks = blocks[:40]
+            blocks = blocks[:48]
         max_len = 3 if tier == "quick" else 4
         tasks = [(gasol.optset("none", "gas", True, True, "greedy"), [("tamper", b, max_len) for b in blocks], 1)]
         for k, o in enumerate(osets):
